@@ -53,6 +53,11 @@ SoundAccepted(j, r) ==
     /\ (r.ser = "ok" /\ r.re = "ok" /\ StructDefect(N) = "none" /\ ~SameDocument(N, r.root, r.retree.n, r.reroot))
           => Report(j, "C03", r.entry, <<"reparse differs">>)
 
+SpanValueBad(r, D) ==
+    {sp \in SpanSet(r.spans) : /\ sp.kind \in {"text", "av", "comm", "pic"}
+                               /\ sp.id \in 1..Len(r.tree.n) /\ sp.id \in 1..Len(D.N)
+                               /\ D.N[sp.id].k = r.tree.n[sp.id].k /\ r.tree.n[sp.id].t # D.N[sp.id].t}
+
 JudgeRun(j, e, r, D) ==
     /\ r.res \notin {"ok", "err"} => Report(j, "C03", r.entry, <<"panic">>)
     /\ (r.res = "err" /\ IsStr(r) /\ ~(0 <= r.es /\ r.es <= r.ee /\ r.ee <= e.blen)) => Report(j, "C17", r.entry, <<"error span outside the source", r.es, r.ee, e.blen>>)
@@ -66,6 +71,11 @@ JudgeRun(j, e, r, D) ==
                   => Report(j, "C02", r.entry, <<"xml_id_node", {r.ids[q] : q \in {x \in 1..Len(r.ids) : r.ids[x][2] # IdExpected(D, r.ids[x][1])}}>>)
             /\ (r.res = "ok" /\ HasSpans(r) /\ SpanSet(r.spans) # SpanSet(D.spans) /\ SpanSet(r.spans) # SpanSetAlt(D.spans))
                   => Report(j, "C17", r.entry, <<"spans", SpanSet(r.spans) \ SpanSet(D.spans), "expected", SpanSet(D.spans) \ SpanSet(r.spans)>>)
+            \* the spans are right, but the value the node holds is not what the slice decodes to (Denote computes every
+            \* value from the pieces inside the item's span)
+            /\ (r.res = "ok" /\ HasSpans(r) /\ (SpanSet(r.spans) = SpanSet(D.spans) \/ SpanSet(r.spans) = SpanSetAlt(D.spans))
+                  /\ StructDefect(r.tree.n) = "none" /\ SpanValueBad(r, D) # {})
+                  => Report(j, "C17", r.entry, <<"the value of the node is not what its span decodes to", SpanValueBad(r, D)>>)
          ELSE r.res = "ok" => Report(j, "C03", r.entry, <<"ill-formed text accepted", D.why, e.dmg>>)
 
 Judge(j) ==
